@@ -66,6 +66,7 @@ type Monitors struct {
 	// same-key delivery of the subscription still inside its retention
 	linkMissing  map[uuid.UUID]bool
 	LinkMismatch []LinkMis
+	seekAcked    map[uuid.UUID]bool // deliveries completed by a seek
 }
 
 // LinkMis records where a wrong predecessor link was made (directs the violation search).
@@ -78,7 +79,7 @@ type LinkMis struct {
 func NewMonitors() *Monitors {
 	return &Monitors{pubs: map[uuid.UUID]*pubRecord{}, leases: map[uuid.UUID]*leaseRecord{}, acked: map[uuid.UUID]int64{},
 		lastSeek: map[uuid.UUID]int64{}, reopened: map[uuid.UUID]bool{}, handouts: map[uuid.UUID]int{}, snaps: map[string]*snapRecord{},
-		lastPull: map[uuid.UUID]int64{}, dlDone: map[uuid.UUID]bool{}, Counts: map[string]int{}, linkMissing: map[uuid.UUID]bool{}}
+		lastPull: map[uuid.UUID]int64{}, dlDone: map[uuid.UUID]bool{}, Counts: map[string]int{}, linkMissing: map[uuid.UUID]bool{}, seekAcked: map[uuid.UUID]bool{}}
 }
 
 // alsoViolates: an observation made by one property's monitor that contradicts the statement of
@@ -235,6 +236,14 @@ func (m *Monitors) Observe(idx int, r *Result) {
 	now := r.T
 	ok := strings.HasPrefix(r.Resp, "ok")
 
+	// ---------- bookkeeping of rows a seek acknowledged ----------
+	if op.K == "seek_time" || op.K == "seek_snap" {
+		for id, b := range r.Before {
+			if a := r.After[id]; a != nil && b.CompletedAt == nil && a.CompletedAt != nil {
+				m.seekAcked[id] = true
+			}
+		}
+	}
 	// ---------- bookkeeping of re-opened rows (any op) ----------
 	for id, b := range r.Before {
 		if a := r.After[id]; a != nil && b.CompletedAt != nil && a.CompletedAt == nil {
@@ -497,6 +506,10 @@ func (m *Monitors) Observe(idx int, r *Result) {
 						sig = "overtake-link-missing"
 					} else if m.reopened[oid] {
 						sig = "overtake-seek-reopened-predecessor"
+					} else if m.seekAcked[b.NotBeforeID] {
+						// the delivery this one was linked behind was acknowledged by a seek (it is in the
+						// snapshot's acked list / before the seek time) while an older one is still outstanding
+						sig = "overtake-seek-acked-middle"
 					}
 					m.fire("C05", sig, "ordered subscription %s delivered key %q message (delivery %s, published %d) while earlier same-key delivery %s (published %d, attempts %d) is outstanding", sub.Name, d.Key, d.ID, ns(b.PublishedAt), oid, ns(o.PublishedAt), o.Attempts)
 				}
